@@ -269,8 +269,7 @@ Definition tcsh_format (e : fenv) (word : str) (values : list raw) : str :=
 (* ---------- xonsh ---------- *)
 Definition xonsh_quote (v : str) : str :=
   let val := replace1 xonsh_sanitizer v in
-  if contains_any val xonsh_ActionRawValues_any1 then
-    if mem (byte 92) val then B [114;39] ++ val ++ B [39] else B [39] ++ val ++ B [39]
+  if contains_any val xonsh_ActionRawValues_any1 then B [39] ++ replace1 xonsh_quoter val ++ B [39]
   else val.
 Definition xonsh_format (m : meta) (values : list raw) : str :=
   json_array (map (fun v =>
